@@ -97,7 +97,8 @@ class Ldm:
         self.present = [z3.Bool(f"stored{i + 1}") for i in range(nrec)]
         self.next_id = I.int_var("next_id", 0, 10 ** 6 + 1)
         for i in range(nrec):
-            I.assumptions.append(self.keys[i] < self.next_id)                      # representation invariant: ids below the allocator
+            # representation invariant: the ids of STORED records are below the allocator (an empty store has allocator 0: the first object gets id 0)
+            I.assumptions.append(z3.Implies(self.present[i], self.keys[i] < self.next_id))
             for j in range(i):
                 I.assumptions.append(self.keys[i] > self.keys[j])                  # distinct, insertion (= id) order
         self.store = SDict([(self.present[i], self.keys[i], self.recs[i].d, False) for i in range(nrec)])
